@@ -14,6 +14,22 @@ const kTree = "hs/internal/tree.Tree."
 
 func checkC17(c *Ctx) {
 	p := c.P
+	// the position look-up helper (today Tree.replicaPosition): the function of the package that
+	// returns slices.Index(t.treePosToID, id); found by what it does, so that renaming it changes nothing
+	posName := "replicaPosition"
+	for _, fn := range p.ModFuncs {
+		if funcPkgPath(fn) != modPath+"/internal/tree" || fn.Parent() != nil || fn.Blocks == nil || strings.HasSuffix(p.FuncPos(fn), "_test.go") {
+			continue
+		}
+		rets := returnsOf(fn)
+		if len(rets) != 1 || len(rets[0].Results) != 1 {
+			continue
+		}
+		k := NewKeyer(p, fn).Key(rets[0].Results[0])
+		if strings.HasPrefix(k, "slices.Index[") && strings.Contains(k, "hs/internal/tree.Tree.treePosToID, p1)") {
+			posName = fn.Name()
+		}
+	}
 	c.Decided = "the index algebra of the tree layout: a Tree is immutable after construction (fields stored only by the constructor and the two wait-time setters); arithmetic on the branch factor occurs only in Parent, ChildrenOf, heightOf and treeHeight, from which all other views derive; " +
 		"the parent of position c is (c-1) div B and the children of position p are the positions p*B+1 .. p*B+B clamped to n (polynomial identities on the extracted expressions), so with B >= 2 every position >= 1 lies in the child range of exactly its parent; " +
 		"ChildrenOf guards its slice expression (known replica, start < n, end <= n) and the constructor rejects a position list without the replica and a branch factor below 2."
@@ -61,7 +77,7 @@ func checkC17(c *Ctx) {
 		c.Check(len(extra) == 0 && n > 0, "C17.2", "layout arithmetic on the branch factor", "internal/tree/tree.go",
 			itoa(n)+" arithmetic uses of branchFactor, all in Parent, ChildrenOf, heightOf (treeHeight takes it as a parameter)", "layout arithmetic outside the four layout functions: "+join(extra))
 		// derived views call the primitives
-		for _, d := range []struct{ fn, must string }{{"ReplicaChildren", "ChildrenOf"}, {"PeersOf", "ChildrenOf"}, {"SubTree", "ChildrenOf"}, {"IsRoot", "replicaPosition"}} {
+		for _, d := range []struct{ fn, must string }{{"ReplicaChildren", "ChildrenOf"}, {"PeersOf", "ChildrenOf"}, {"SubTree", "ChildrenOf"}, {"IsRoot", posName}} {
 			fn := p.Method("internal/tree", "Tree", d.fn)
 			if fn == nil {
 				c.Unresolved("C17.2", "Tree."+d.fn, "anchor missing")
@@ -93,7 +109,7 @@ func checkC17(c *Ctx) {
 				return
 			}
 			switch call.Call.StaticCallee().Name() {
-			case "replicaPosition", "IsRoot":
+			case posName, "IsRoot":
 				n++
 				if k.Key(call.Call.Args[1]) != "p1" {
 					okArg = false
@@ -124,7 +140,7 @@ func checkC17(c *Ctx) {
 	} else {
 		facts := fco.At(sl)
 		lenK := func(k string) bool { return strings.HasPrefix(k, "builtin len(p0."+kTree+"treePosToID)") }
-		posK := func(k string) bool { return strings.Contains(k, "replicaPosition(") }
+		posK := func(k string) bool { return strings.Contains(k, posName+"(") }
 		okKnown := hasCmp(facts, "!=", posK, is("c:-1"))
 		lowK := fco.K.Key(sl.Low)
 		okStart := hasCmp(facts, "<", is(lowK), lenK)
@@ -152,7 +168,11 @@ func checkC17(c *Ctx) {
 			}
 			facts := fns.At(e.Instr)
 			okBF = hasCmp(facts, "<=", is("c:2"), is("p1"))
-			okID = hasCmp(facts, "!=", func(k string) bool { return strings.HasPrefix(k, "slices.Index[") && strings.Contains(k, "(p2, p0)") }, is("c:-1"))
+			okID = hasCmp(facts, "!=", func(k string) bool { return strings.HasPrefix(k, "slices.Index[") && strings.Contains(k, "(p2, p0)") }, is("c:-1")) ||
+				hasCmp(facts, "<=", is("c:0"), func(k string) bool { return strings.HasPrefix(k, "slices.Index[") && strings.Contains(k, "(p2, p0)") }) ||
+				trueOf(facts, func(k string) bool {
+					return strings.HasPrefix(k, "slices.Contains[") && strings.Contains(k, "(p2, p0)")
+				})
 		}
 		if !okBF && !okID {
 			// the Tree literal is allocated with new(Tree): look at the stores to its fields
@@ -160,7 +180,11 @@ func checkC17(c *Ctx) {
 				if a, ok := in.(*ssa.Alloc); ok && strings.HasSuffix(a.Type().String(), "tree.Tree") {
 					facts := fns.At(in)
 					okBF = hasCmp(facts, "<=", is("c:2"), is("p1"))
-					okID = hasCmp(facts, "!=", func(k string) bool { return strings.HasPrefix(k, "slices.Index[") && strings.Contains(k, "(p2, p0)") }, is("c:-1"))
+					okID = hasCmp(facts, "!=", func(k string) bool { return strings.HasPrefix(k, "slices.Index[") && strings.Contains(k, "(p2, p0)") }, is("c:-1")) ||
+						hasCmp(facts, "<=", is("c:0"), func(k string) bool { return strings.HasPrefix(k, "slices.Index[") && strings.Contains(k, "(p2, p0)") }) ||
+						trueOf(facts, func(k string) bool {
+							return strings.HasPrefix(k, "slices.Contains[") && strings.Contains(k, "(p2, p0)")
+						})
 				}
 			})
 		}
@@ -174,7 +198,7 @@ func checkC17(c *Ctx) {
 		return func(v ssa.Value) string {
 			s := k.Key(v)
 			switch {
-			case strings.Contains(s, "replicaPosition("):
+			case strings.Contains(s, posName+"("):
 				return "pos"
 			case strings.HasSuffix(s, kTree+"branchFactor"):
 				return "B"
@@ -221,7 +245,7 @@ func checkC17(c *Ctx) {
 		rootOK := false
 		eachInstr(par, func(in ssa.Instruction) {
 			if b, isB := in.(*ssa.BinOp); isB && b.Op == token.QUO {
-				if hasCmp(fpar.At(in), "!=", func(k string) bool { return strings.Contains(k, "replicaPosition(") }, is("c:0")) {
+				if hasCmp(fpar.At(in), "!=", func(k string) bool { return strings.Contains(k, posName+"(") }, is("c:0")) {
 					rootOK = true
 				}
 			}
